@@ -17,7 +17,7 @@ from . import shapes as S
 from . import source as SRC
 from . import values as V
 from .engine import PathEnd, PyRaise, SExc, State
-from .seqs import DRef, LRef, SObj, SRange, SSeq, SSlice, View
+from .seqs import DRef, LRef, ModelObj, SObj, SRange, SSeq, SSlice, View
 from .values import (
     SAtom,
     SBool,
@@ -464,6 +464,18 @@ class Interp:
                 if not any(issubclass(pr.exc.cls, c) for c in cm[1]):
                     raise
             return
+        if isinstance(cm, ModelObj) and hasattr(cm, "py_enter"):
+            v = cm.py_enter(self, st)
+            if item.optional_vars is not None:
+                self.assign_target(st, item.optional_vars, v, fr)
+            try:
+                self.exec_block(st, s.body, fr)
+            except PyRaise as pr:
+                if not cm.py_exit(self, st, pr.exc):
+                    raise
+                return
+            cm.py_exit(self, st, None)
+            return
         raise Unsupported(f"with {ast.unparse(item.context_expr)}")
 
     def s_Delete(self, st, s, fr):
@@ -576,8 +588,8 @@ class Interp:
             raise PathEnd()
         self.exec_block(st, s.orelse, fr)
 
-    def loop_view(self, fr, i, iter_seq=None):
-        d = {"iter_": iter_seq}
+    def loop_view(self, fr, i, iter_seq=None, entry=None):
+        d = {"iter_": iter_seq, "at_entry": entry}
         f = fr
         chain = []
         while f is not None:
@@ -643,7 +655,7 @@ class Interp:
                 for t in n.targets:
                     tgt(t)
             elif isinstance(n, ast.Call) and isinstance(n.func, ast.Attribute) and isinstance(n.func.value, ast.Name):
-                if n.func.attr in ("append", "extend", "insert", "pop", "remove", "sort", "reverse", "clear", "update", "setdefault"):
+                if n.func.attr in ("append", "extend", "insert", "pop", "remove", "sort", "reverse", "clear", "update", "setdefault", "register", "unregister", "add", "discard"):
                     mutated.add(n.func.value.id)
         return names, attrs, mutated
 
@@ -659,6 +671,10 @@ class Interp:
                 cur = fr.lookup(n)
             except PyRaise:
                 continue  # first assigned inside the loop
+            if isinstance(cur, ModelObj):
+                if hasattr(cur, "py_havoc"):
+                    cur.py_havoc(st)
+                continue
             if n in mutated and n not in names and isinstance(cur, LRef):
                 shp = spec.shapes.get(n) or S.shape_of(cur)
                 cur.seq = shp.fresh_seq(st, n) if isinstance(shp, S.ListOf) else shp.fresh(st, n).seq
@@ -712,13 +728,14 @@ class Interp:
             self.exec_block(st, s.orelse, fr)
             return
         name = f"{fr.fn.ref.qualname}/loop{self.task.loop_ordinal(fr.fn.ref, s)}"
-        self.check_inv(st, spec, self.loop_view(fr, 0, seq), f"{name}/inv-init")
+        entry = self._entry_snapshot(fr)
+        self.check_inv(st, spec, self.loop_view(fr, 0, seq, entry), f"{name}/inv-init")
         self.havoc_loop(st, s, spec, fr)
         i = st.fresh_int("iter")
         n = Q.seq_len(seq)
         st.assume(V._cmp(">=", i, 0))
         st.assume(V._cmp("<=", i, n))
-        self.assume_inv(st, spec, self.loop_view(fr, i, seq))
+        self.assume_inv(st, spec, self.loop_view(fr, i, seq, entry))
         if st.branch(V._cmp("<", i, n)):
             self.assign_target(st, s.target, Q.seq_get(seq, i), fr)
             try:
@@ -727,9 +744,24 @@ class Interp:
                 return
             except _Continue:
                 pass
-            self.check_inv(st, spec, self.loop_view(fr, i + 1, seq), f"{name}/inv-preserve")
+            self.check_inv(st, spec, self.loop_view(fr, i + 1, seq, entry), f"{name}/inv-preserve")
             raise PathEnd()
         self.exec_block(st, s.orelse, fr)
+
+    def _entry_snapshot(self, fr):
+        """Values at loop entry (before the havoc): locals, and a snapshot of `self`'s fields."""
+        d = {}
+        f = fr
+        chain = []
+        while f is not None:
+            chain.append(f)
+            f = f.parent
+        for f in reversed(chain):
+            d.update(f.locals)
+        for k, v in list(d.items()):
+            if isinstance(v, SObj):
+                d[k] = v.snapshot()
+        return View(d)
 
     def iter_view(self, st, it):
         """Something with seq_len / seq_get."""
@@ -741,6 +773,8 @@ class Interp:
             return tuple(it)
         if isinstance(it, (str, bytes)):
             return tuple(it)
+        if isinstance(it, ModelObj):
+            return it.py_iter(self, st)
         if isinstance(it, DRef):
             return tuple(it.d.keys())
         if isinstance(it, dict):
@@ -1101,6 +1135,8 @@ class Interp:
             if p is not None and hasattr(p, "contains"):
                 return p.contains(st, container, x)
             raise Unsupported(f"'in' on opaque {container.kind}")
+        if isinstance(container, ModelObj):
+            return container.py_contains(self, st, x)
         if isinstance(container, SRange):
             return container.contains(st.force(x))
         if isinstance(container, range):
@@ -1140,6 +1176,8 @@ class Interp:
             return n > 0 if isinstance(n, int) else st.branch(V._cmp(">", n, 0))
         if isinstance(v, DRef):
             return bool(v.d)
+        if isinstance(v, ModelObj):
+            return self.truth(st, v.py_truth(st))
         if isinstance(v, SObj):
             if v.base_list:
                 return self.truth(st, v.fields[v.base_list])
@@ -1171,7 +1209,7 @@ class Interp:
             return self.obj_getattr(st, obj, name)
         if isinstance(obj, SOpaque):
             return self.task.opaque_getattr(self, st, obj, name)
-        if type(obj).__name__ == "SText":
+        if type(obj).__name__ == "SText" or isinstance(obj, ModelObj):
             return Method(obj, name)
         if isinstance(obj, (LRef, SSlice, SSeq, DRef, SRange)):
             if isinstance(obj, SSlice) and name in ("start", "stop", "step"):
@@ -1341,6 +1379,7 @@ class Interp:
             return self.eval(V.cur(), e.elt, cfr)
 
         r = SSeq(n, getter, None, None, "comp")
+        r.lazy = True
         h = getattr(self.task.c, "comprehension_sum", None)
         if h is not None:
             sv = h(self, st, e, fr, seq)
